@@ -288,6 +288,16 @@ def handle (_ : Unit) (j : Json) : R (Unit × Json) := do
       | some r => okv (jRat (r.btime : Rat))
       | none => Json.null
     return ((), answer (jRes jRat (bootTime st)) s)
+  if op == "boottime_seq" then
+    -- a history of calls without resetting the module global in between (BOOT_TIME starts unset)
+    let sts ← listD asStat j "stats"
+    let rs := bootTimeRun bootReturnsFresh none (sts.map (·.1))
+    let g := bootTimeGlobal none (sts.map (·.1))
+    let m := jObj [("calls", jList (jRes jRat) rs), ("global", jOpt jRat g)]
+    let s := jObj [("calls", jList (fun (x : FileState × Option Spec.StatRec) => match x.2 with
+      | some r => okv (jRat (r.btime : Rat))
+      | none => Json.null) sts)]
+    return ((), answer m s)
   if op == "render" then
     let what ← strF j "what"
     if what == "cpuinfo" then
